@@ -330,3 +330,61 @@ func VHSetCtors() {
 		vCover("ctors n >= 2")
 	}
 }
+
+// VHSetSelf: the second operand is the receiver itself ("for all sets A and B" includes B = A).
+func VHSetSelf() {
+	vMapOrder(false)
+	u := c03universe()
+	a := c03new("A")
+	a.history("A", u, vParam("KA"))
+	a.subset("A", u)
+	p := vInt("probe")
+	ma := a.model
+	n := len(ma)
+	c03agrees(a.set, ma, u, p, "A before")
+	op := vChoose("op", 6)
+	var r sets.Set[int]
+	var exp map[int]bool
+	vMapOrder(true)
+	defer vMapOrder(false)
+	switch op {
+	case 0:
+		r = a.set.Union(a.set)
+		exp = c03expect(u, func(x int) bool { return ma[x] })
+	case 1:
+		r = a.set.Intersect(a.set)
+		exp = c03expect(u, func(x int) bool { return ma[x] })
+	case 2:
+		r = a.set.SetDiff(a.set)
+		exp = map[int]bool{}
+	case 3:
+		r = a.set.SymDiff(a.set)
+		exp = map[int]bool{}
+	case 4:
+		got := a.set.AddSet(a.set)
+		vMapOrder(false)
+		vAssert(got == 0, "A.AddSet(A) gains nothing")
+		c03agrees(a.set, ma, u, p, "A after A.AddSet(A)")
+		return
+	case 5:
+		got := a.set.RemoveSet(a.set)
+		vMapOrder(false)
+		vAssert(got == n, "A.RemoveSet(A) loses every member")
+		c03agrees(a.set, map[int]bool{}, u, p, "A after A.RemoveSet(A)")
+		if n >= 2 {
+			vCover("setself: RemoveSet of itself, |A| >= 2")
+		}
+		return
+	}
+	vMapOrder(false)
+	c03agrees(r, exp, u, p, "result (self operand)")
+	c03agrees(a.set, ma, u, p, "A unchanged by the operation (self operand)")
+	r.Add(p)
+	for _, x := range u {
+		r.Remove(x)
+	}
+	c03agrees(a.set, ma, u, p, "A unchanged by mutating the result (self operand)")
+	if n >= 2 {
+		vCover("setself: algebra with itself, |A| >= 2")
+	}
+}
